@@ -38,6 +38,11 @@ OpAll ==
     \/ \E sb \in Buckets, sk \in Keys, b \in Buckets, k \in Keys : sk # k /\ CopyObject(sb, sk, b, k)
     \/ \E b \in Buckets : ListObjects(b)
     \/ Restart
+    \/ \E b \in Buckets, k \in Keys : HeadObject(b, k)
+    \* tagging of the current version (of a live key, or of a key that does not exist)
+    \/ \E b \in Buckets, k \in Keys, c \in Contents : (Live(b, k) \/ Stack(b, k) = <<>>) /\ PutObjectTagging(b, k, "-", c)
+    \/ \E b \in Buckets, k \in Keys : Live(b, k) /\ Head1(Stack(b, k)).tags # "-" /\ DeleteObjectTagging(b, k, "-")
+    \/ \E b \in Buckets, k \in Keys : (Live(b, k) \/ Stack(b, k) = <<>>) /\ GetObjectTagging(b, k, "-")
     \/ /\ Mode = "versioned"
        /\ \/ \E b \in Buckets, st \in {"Enabled", "Suspended"} : Exists(b) /\ bkts[b].ver # st /\ PutVersioning(b, st)
           \* version-specific requests only where versioning was ever configured (C09 is
@@ -45,6 +50,10 @@ OpAll ==
           \/ \E b \in Buckets, k \in Keys : \E v \in KnownVids(b, k) : Exists(b) /\ bkts[b].ver # "Unset" /\ GetObjectVersion(b, k, v)
           \/ \E b \in Buckets, k \in Keys : \E v \in KnownVids(b, k) : Exists(b) /\ bkts[b].ver # "Unset" /\ DeleteObjectVersion(b, k, v)
           \/ \E b \in Buckets : ListVersions(b)
+          \* (tagging BY VERSION ID is part of S3Gw but not of these behaviours: the gateway's
+          \* backend interface has no version parameter for the tagging calls - a versionId on
+          \* a tagging request is ignored and the current version is addressed - and none of
+          \* the listed properties speaks about it)
 
 Op == IF Mode = "burst" THEN OpBurst ELSE OpAll
 
